@@ -1129,7 +1129,7 @@ Lemma parse_b58_cases k prefix s : k = 0 \/ k = 1 ->
   \/ (parse_b58 dec prefix 20 (kind_info k) s = Ret None /\
       forall pre h, prefix = Some pre -> dec s = Some (pre ++ h) -> length h <> 20%nat).
 Proof.
-  intros Hk. unfold parse_b58.
+  intros Hk. unfold parse_b58, parse_b58_data.
   destruct (dec s) as [data|] eqn:D; [|right; split; [reflexivity|discriminate]].
   destruct prefix as [pre|]; [|right; split; [reflexivity|discriminate]].
   destruct (starts_with pre data) eqn:SW; cbn [negb].
@@ -1155,7 +1155,7 @@ Lemma parse_bech32m_cases net k s : k = 2 \/ k = 3 \/ k = 4 ->
       forall hrp prog, nr_hrp net = Some hrp -> sparse s = Some (hrp, std_version k, prog, spec_for (std_version k)) ->
         length prog <> std_len k).
 Proof.
-  intros Hk. unfold parse_bech32m.
+  intros Hk. unfold parse_bech32m, parse_bech32m_data.
   destruct (sparse s) as [[[[hp ver] prog] spec]|] eqn:SP; [|right; split; [reflexivity|discriminate]].
   destruct (nr_hrp net) as [hrp|]; [|right; split; [reflexivity|discriminate]].
   destruct (bytes_eqb hp hrp) eqn:E1; cbn [negb].
@@ -1481,6 +1481,49 @@ Proof.
   rewrite (for_info_std 2 _ ltac:(lia) (L sec)). reflexivity.
 Qed.
 End Codecs.
+
+(* ---- the parseable_str cache is transparent: history independence ---- *)
+Definition cache_coherent (dec : bytes -> option bytes) (sparse : bytes -> option (bytes * N * bytes * N)) (s : bytes)
+  (c : pcache) : Prop :=
+  (c_b58chk c = None \/ c_b58chk c = Some (dec s)) /\ (c_bech32 c = None \/ c_bech32 c = Some (sparse s)).
+
+Lemma or_else_assoc {A} (a b rest : outcome (option A)) :
+  or_else a (or_else b rest) = match or_else a b with Ret None => rest | x => x end.
+Proof.
+  destruct a as [[x|]|e|]; cbn; try reflexivity.
+Qed.
+
+Lemma parse_address_st_fresh dec sparse net s c : cache_coherent dec sparse s c ->
+  fst (parse_address_st dec sparse net s c) = parse_address dec sparse net s /\
+  cache_coherent dec sparse s (snd (parse_address_st dec sparse net s c)).
+Proof.
+  intros [C1 C2]. unfold parse_address_st.
+  assert (E1 : eff_b58 dec c s = dec s) by (unfold eff_b58; destruct C1 as [-> | ->]; reflexivity).
+  assert (E2 : eff_bech32 sparse c s = sparse s) by (unfold eff_bech32; destruct C2 as [-> | ->]; reflexivity).
+  rewrite E1, E2. unfold parse_address. rewrite (or_else_assoc (parse_p2pkh dec net s) (parse_p2sh dec net s)).
+  change (or_else (parse_p2pkh dec net s) (parse_p2sh dec net s)) with
+    (or_else (parse_b58_data (dec s) (nr_pkh net) p2pkh_payload_len IP2PKH) (parse_b58_data (dec s) (nr_sh net) p2sh_payload_len IP2SH)).
+  destruct (or_else (parse_b58_data (dec s) (nr_pkh net) p2pkh_payload_len IP2PKH)
+                    (parse_b58_data (dec s) (nr_sh net) p2sh_payload_len IP2SH)) as [[x|]|e|];
+    cbn [fst snd]; (split; [reflexivity|]); unfold cache_coherent; cbn [c_b58chk c_bech32]; auto.
+Qed.
+
+(* one parseable_str object offered to any sequence of networks: every answer is the answer to a fresh string *)
+Lemma parse_address_seq_fresh dec sparse s : forall nets c, cache_coherent dec sparse s c ->
+  parse_address_seq dec sparse nets s c = map (fun net => parse_address dec sparse net s) nets.
+Proof.
+  induction nets as [|net nets IH]; intros c C; [reflexivity|]. cbn [parse_address_seq map].
+  destruct (parse_address_st_fresh dec sparse net s c C) as [F C'].
+  destruct (parse_address_st dec sparse net s c) as [r c']. cbn [fst snd] in *. rewrite F, (IH c' C'). reflexivity.
+Qed.
+Lemma parse_address_seq_fresh_empty dec sparse s nets :
+  parse_address_seq dec sparse nets s pcache_empty = map (fun net => parse_address dec sparse net s) nets.
+Proof. apply parse_address_seq_fresh. split; left; reflexivity. Qed.
+
+Lemma parse_cache_keys_fact : parse_cache_keys =
+  [ [x62; x35; x38]; [x62; x35; x38; x5f; x64; x6f; x75; x62; x6c; x65; x5f; x73; x68; x61; x32; x35; x36];
+    [x62; x65; x63; x68; x33; x32]; [x63; x6f; x6c; x6f; x6e; x5f; x70; x72; x65; x66; x69; x78] ].
+Proof. reflexivity. Qed.
 
 (* parse_address never raises, whatever the network row and the codecs *)
 Lemma parse_address_total (dec : bytes -> option bytes) (sparse : bytes -> option (bytes * N * bytes * N)) net s :
